@@ -65,6 +65,7 @@ fn rows(t: &T) -> (Vec<(char, Vec<i64>)>, String) {
         draws: &t.draws,
         max_steps: 1000,
         virtual_order: &virt,
+        continue_after_error: false,
     });
     let mut out = vec![];
     let mut last = String::from("?");
@@ -111,6 +112,7 @@ fn expected_of(t: &T) -> Vec<Vec<(String, ExpVal, OutVal)>> {
         draws: &t.draws,
         max_steps: 1000,
         virtual_order: &virt,
+        continue_after_error: false,
     });
     r.steps
         .iter()
